@@ -127,6 +127,13 @@ def schedules(ctx):
     for cfg in ("rd2", "rd2cap2", "rd3"):
         scheds += ctx.gen("BgzfReader", "ReaderSched", "ReaderSched_%s.cfg" % cfg, simulate="num=%d" % num, timeout=3000,
                           extra=["-depth", "400", "-seed", str(1000 + ctx.seed)])
+    if ctx.tier == "thorough":
+        # directed schedules: ReaderI with the switch of a seeded change on (KeepCurAfterKeep, seed C03-B); the
+        # exhaustive search stops at the first state that breaks an invariant and prints the history leading there
+        # (TLC's "invariant violated" is the expected end of that search); the harness appends a visit of every member
+        d = ctx.gen("BgzfReader", "ReaderSched", "ReaderSched_keepcur.cfg", workers=8, timeout=3000)
+        ctx.extra["directed_schedules"] = len(d)
+        scheds += d * 3
     p = "%s/scheds.json" % ctx.work
     json.dump(scheds, open(p, "w"))
     trace = "%s/rd_sched.ndjson" % ctx.work
